@@ -9,7 +9,7 @@ def _t(k):
     return k / GRID      # exact in binary floating point
 
 
-PATTERNS = ["perturbed", "random", "identical", "nested", "disjoint", "samelabel"]
+PATTERNS = ["perturbed", "random", "identical", "nested", "disjoint", "samelabel", "intgrid"]
 LABEL_SETS = {
     "abc": ["A", "B", "C"],
     "words": ["cat", "cart", "dog", "do", "zebra"],
@@ -80,6 +80,16 @@ def gen_units(rng, n, sizes, pattern, labels, unlabelled=False, span=40):
                 tries += 1
                 if tries > 50:
                     segs.append((rng.randrange(0, 10 * GRID), rng.randrange(1, 4 * GRID)))
+            units.append(us)
+    elif pattern == "intgrid":
+        # unit-length segments at small integer positions: positional dissimilarities are exact squares, so sums tie with the cut
+        for a in range(n):
+            us = set()
+            tries = 0
+            while len(us) < sizes[a] and tries < 100:
+                p0 = rng.randrange(0, 7)
+                us.add((p0 * GRID, (p0 + 1) * GRID, lab()))
+                tries += 1
             units.append(us)
     else:
         raise ValueError(pattern)
